@@ -132,6 +132,12 @@ def q_len(ex, args, callee):
     return Int(r, 'usize')
 
 
+def q_capacity(ex, args, callee):
+    """Sender/Receiver::capacity: the value given to bounded(), None for unbounded() (not a visible operation: it never changes)."""
+    cap = ex.deref_all(args[0]).state.v['cap']
+    return NONE if cap is None else some(cap)
+
+
 def q_spawn(ex, args, callee):
     clo = args[0]
     ex.spawned.append(clo)
@@ -243,6 +249,8 @@ def install_oracle(ex: Explorer):
     ex.stubs['Receiver::is_full'] = q_is_full
     ex.stubs['Receiver::len'] = q_len
     ex.stubs['Sender::len'] = q_len
+    ex.stubs['Sender::capacity'] = q_capacity
+    ex.stubs['Receiver::capacity'] = q_capacity
     ex.stubs['<Iter as Iterator>::next'] = q_iter_next
     ex.stubs['Arc::strong_count'] = lambda ex, args, callee: arc_strong_count_oracle(ex, args, callee) if getattr(ex, 'oracle', False) else stubs.arc_strong_count(ex, args, callee)
     ex.stubs['spawn'] = q_spawn
